@@ -266,6 +266,8 @@ def explore(fn, structure, max_paths=100000, max_seconds=600.0, sample_every=97,
     prof = Profile()
     functions = set()
     maxforks = 0
+    n_unsupported = 0
+    fallback = []
     try:
         while True:
             en.start()
@@ -283,8 +285,24 @@ def explore(fn, structure, max_paths=100000, max_seconds=600.0, sample_every=97,
             except Abort:
                 outcome = 'abort'
             except Unsupported as e:
-                status, reason = 'unsupported', 'Unsupported: %s\n%s' % (e, _where())
-                break
+                # the engine cannot carry this path: the structure is inconclusive, but exploration goes on (other
+                # paths may still expose a violation) and the current path condition's model is kept as a concrete
+                # sample to be run on the real code (concolic fallback)
+                n_unsupported += 1
+                if reason is None:
+                    reason = 'Unsupported: %s\n%s' % (e, _where())
+                status = 'unsupported'
+                if len(fallback) < 12:
+                    try:
+                        m = en.model()
+                        if m is not None:
+                            fallback.append(ctx.values_of(m))
+                    except BaseException:       # noqa
+                        pass
+                paths += 1
+                if n_unsupported >= 40 or not en.advance():
+                    break
+                continue
             except Budget as e:
                 status, reason = 'unsupported', 'Budget escaped the harness: %s' % e
                 break
@@ -326,6 +344,8 @@ def explore(fn, structure, max_paths=100000, max_seconds=600.0, sample_every=97,
                             replay_samples.append({'values': vals, 'observed': obs})
             if not en.advance():
                 break
+            if en.sampled and status == 'complete':
+                status, reason = 'incomplete', 'a symbolic value with an unbounded domain was concretised by sampling: ' + en.sampled
             if paths >= max_paths:
                 status, reason = 'incomplete', 'path budget %d exhausted' % max_paths
                 break
@@ -335,6 +355,8 @@ def explore(fn, structure, max_paths=100000, max_seconds=600.0, sample_every=97,
     finally:
         sys.setprofile(None)
         set_engine(None)
+    if en.sampled and status == 'complete':
+        status, reason = 'incomplete', 'a symbolic value with an unbounded domain was concretised by sampling: ' + en.sampled
     return {
         'structure': structure, 'status': status, 'reason': reason,
         'paths': paths, 'aborted': aborted, 'nontrivial': nontrivial, 'max_decisions': maxforks,
@@ -342,6 +364,7 @@ def explore(fn, structure, max_paths=100000, max_seconds=600.0, sample_every=97,
         'feas_queries': en.n_feas, 'prop_queries': en.n_prop, 'solver_s': round(en.solver_s, 3),
         'wall_s': round(time.time() - t0, 3),
         'samples': samples, 'replay_samples': replay_samples, 'functions': sorted(functions),
+        'fallback_samples': fallback, 'unsupported_paths': n_unsupported,
     }
 
 
